@@ -239,8 +239,9 @@ def check_strings(rep, prog):
     rep.check(bad is None, rule, "is_match = equal hashes; is_partial_match = different hashes that agree modulo 100000", TR + "TraceString",
               "is_partial_match", bad)
     # get_message: broad fallback
+    seq_gm = len(I2.events)
     msg = I2.method(ts, "get_message", [Sym("args")])
-    hs = [e for e in I2.events if e.kind == "handler" and e.func == TR + "TraceString.get_message"]
+    hs = [e for e in I2.events[seq_gm:] if e.kind == "handler"]
     okm = isinstance(msg, Ite) and isinstance(msg.c, Sym) and msg.a == Sym("mf") and isinstance(msg.b, Op) and msg.b.args[0] == Sym("mf") and \
         any(x.data[1] in ("Exception", "BaseException", None) for x in hs)
     rep.check(okm, rule, "message = format % args, falling back to the raw format on any formatting error", TR + "TraceString.get_message",
